@@ -7,6 +7,7 @@ import traceback
 
 from .. import gen, lib, proofcheck as pc, runs, tabs, workload
 from ..ref import sem as rsem, syn
+from ..worker import CaseTimeout, watchdog
 
 ID = 'C19'
 META = dict(
@@ -67,6 +68,7 @@ CAP = dict(quick=120, thorough=300)
 SPLIT = dict(quick=1, thorough=4)
 PER_FORMAT = dict(quick=2, thorough=2)         # writer configurations per registered format and tableau
 SEQ_FILL = ('c19-a', 'c19-b')
+RENDER_WATCHDOG = 60                            # s of wall per rendering; firing = inconclusive case
 
 
 def units(tier, seed):
@@ -177,9 +179,16 @@ def make_writer(cfg):
     return TabWriter(fmt, notn, **kw)
 
 
-def cfg_diag(cfg):
-    return dict(format=cfg['format'], notation=cfg['notation'], via=cfg['via'], dialect=cfg.get('dialect'),
-                opts=sorted(cfg.get('opts') or ()), lwopts=sorted(cfg.get('lwopts') or ()), call=sorted(cfg.get('call') or ()))
+def cfg_diag(cfg, writer=None):
+    """The mechanism-level part of a writer configuration (violations are grouped by it): format, notation and
+    the RESOLVED dialect; construction form and option names stay in the case."""
+    d = cfg.get('dialect')
+    if writer is not None:
+        try:
+            d = writer.lw.dialect
+        except Exception:
+            pass
+    return dict(format=cfg['format'], notation=cfg['notation'], dialect=d)
 
 
 # ------------------------------------------------------------------ tableaux
@@ -579,11 +588,11 @@ def render_check(case, tab, cfg, out, writers_cache=None, size=0):
     """Render ``tab`` under ``cfg`` (twice + fresh instance), decide all clauses. Returns the list of
     diagnoses of the violations it reported."""
     diags = []
-    base = cfg_diag(cfg)
     label = cfg_label(cfg)
+    wref = []
 
     def viol(kind, diag, msg, **detail):
-        d = dict(base, **diag)
+        d = dict(cfg_diag(cfg, wref[0] if wref else None), **diag)
         diags.append(d)
         env = pc.env_for(case['run']['order']) if case.get('run') else None
         out.violation(kind, dict(case, writer=cfg, detail=detail), d,
@@ -606,6 +615,7 @@ def render_check(case, tab, cfg, out, writers_cache=None, size=0):
             return diags
         if writers_cache is not None:
             writers_cache[label] = w
+    wref.append(w)
     out.cover('formats', cfg['format'])
     out.cover('notations', str(cfg['notation']))
     out.cover('dialects', f"{cfg['format']}:{w.lw.dialect}")
@@ -618,7 +628,8 @@ def render_check(case, tab, cfg, out, writers_cache=None, size=0):
 
     def render(writer):
         try:
-            r = writer(tab, **call)
+            with watchdog(RENDER_WATCHDOG):
+                r = writer(tab, **call)
         except Exception as e:
             return None, e
         return r, None
@@ -631,7 +642,11 @@ def render_check(case, tab, cfg, out, writers_cache=None, size=0):
                 viol('render', dict(clause='writer-construct-raises', error=type(err).__name__, site=_site(err)),
                      f'constructing a second writer raised {type(err).__name__}')
                 return diags
-        r, err = render(writer)
+        try:
+            r, err = render(writer)
+        except CaseTimeout:
+            out.inconc('render-watchdog')
+            return diags
         out.count('renderings')
         if err is not None:
             out.count('renderings_raised')
